@@ -39,6 +39,7 @@ def bounds(tier):
 def object_lists(tier):
     objs = [{'a': v} for v in VALUES]
     out = [[]] + [[o] for o in objs] + [[{}], [{}, {'a': 0}, {}], [{'a': {}}, {'b': []}, {'c': ''}]]
+    out.append([{'i': i, 's': '\u00e9' * (i % 7), 'n': [i, {'k': None}] if i % 3 else []} for i in range(300)])
     pairs = list(itertools.product(range(len(VALUES)), repeat=2))
     step = 3 if tier == 'quick' else 1
     for (i, j) in pairs[::step]:
